@@ -48,6 +48,8 @@ pub enum Step {
     /// let the scheduler run k steps without waiting for quiescence
     Run(u64),
     Kill(usize),
+    /// kill node .0; node .1 learns of the closed connections late (Cluster::kill_node_noticed_late_by)
+    KillNoticedLateBy(usize, usize),
     /// restart a killed node (it becomes the youngest)
     Restart(usize),
     ForceElection(usize),
@@ -63,7 +65,7 @@ pub struct Scenario {
 pub fn scenarios(r: &mut Rng) -> Scenario {
     let n = r.range(2, 3);
     let gap = |r: &mut Rng| -> Step { if r.chance(1, 2) { Step::Quiet } else { Step::Run(r.range(0, 60) as u64) } };
-    match r.below(9) {
+    match r.below(11) {
         0 => Scenario { class: "sequential-joins", nodes: n, steps: (0..n).flat_map(|i| vec![Step::Start(i), Step::Quiet]).collect() },
         1 => {
             let mut steps = vec![];
@@ -115,6 +117,14 @@ pub fn scenarios(r: &mut Rng) -> Scenario {
             steps.push(Step::ForceElection(r.below(n)));
             steps.push(Step::Quiet);
             Scenario { class: "two-forced-elections", nodes: n, steps }
+        }
+        9 | 10 => {
+            // the primary dies and one survivor notices it late (after the other one has held its election, but well
+            // inside an election timeout): 3 nodes, the late one is the older or the younger survivor
+            let mut steps: Vec<Step> = (0..3).flat_map(|i| vec![Step::Start(i), Step::Quiet]).collect();
+            steps.push(Step::KillNoticedLateBy(0, r.range(1, 2)));
+            steps.push(Step::Quiet);
+            Scenario { class: "primary-killed-one-survivor-notices-late", nodes: 3, steps }
         }
         _ => {
             let mut steps: Vec<Step> = (0..n).flat_map(|i| vec![Step::Start(i), Step::Quiet]).collect();
@@ -194,6 +204,7 @@ pub fn run_scenario(sc: &Scenario, seed0: u64, v: &Verdicts, st: &Mutex<Stats>) 
                 c.start_node(*i, ids[*i], &all);
             }
             Step::Kill(i) => c.kill_node(*i),
+            Step::KillNoticedLateBy(i, late) => c.kill_node_noticed_late_by(*i, *late),
             Step::Run(k) => {
                 c.run_steps(*k);
             }
@@ -233,6 +244,10 @@ pub fn run_scenario(sc: &Scenario, seed0: u64, v: &Verdicts, st: &Mutex<Stats>) 
             }
         }
     }
+    if std::env::var("VERIF_DEBUG_C07").is_ok() && sc.class.contains("notices-late") {
+        eprintln!("DBG {:?}\n  roles {:?} views {:?}\n  {}", sc.steps.last(), c.roles(), c.views(), c.trace().iter().rev().take(14).rev().cloned().collect::<Vec<_>>().join("\n  "));
+        eprintln!("  LINKS\n  {}", c.link_log().iter().rev().take(40).rev().map(|l| format!("[{}] n{}->n{} {}", l.0, l.1, l.2, l.3)).collect::<Vec<_>>().join("\n  "));
+    }
     let wins: Vec<String> = c.wins().iter().map(|w| w.1.clone()).collect();
     let win_set: BTreeSet<String> = wins.iter().cloned().collect();
     {
@@ -264,7 +279,7 @@ pub fn run_scenario(sc: &Scenario, seed0: u64, v: &Verdicts, st: &Mutex<Stats>) 
             match s {
                 Step::Quiet => pending_trigger = false,
                 Step::Run(_) => {}
-                Step::Start(_) | Step::Restart(_) | Step::ForceElection(_) | Step::Kill(_) => {
+                Step::Start(_) | Step::Restart(_) | Step::ForceElection(_) | Step::Kill(_) | Step::KillNoticedLateBy(..) => {
                     if pending_trigger {
                         overlapping = true;
                     }
